@@ -4,7 +4,7 @@
    password), TOML deserialisation, the process exit status and the TLS transport are outside
    the model and decided per run on the real binary (L2). *)
 From IRC Require Import Str Wild Glob Parse Reply State Handlers Step Config.
-From IRCP Require Import ConfigP ChanP WelcomeP JoinP.
+From IRCP Require Import ConfigP ChanP WelcomeP JoinP InvDefs ConnFrame.
 From stdpp Require Import gmap.
 Open Scope N_scope.
 
@@ -69,9 +69,39 @@ Theorem C20_welcome_burst : forall cfg verify i s c r nick,
                           ++ [ rpl_umodeis client (umodes_str (u_modes u)) ]).
 Proof. exact registration_burst. Qed.
 
+(* ENABLING TLS CHANGES THE TRANSPORT ONLY.  The model carries the transport as one flag of the connection record
+   (c_secure, set when the connection is accepted).  (1) Whatever happens - any event of any connection - a connection
+   keeps the host and the transport flag it was accepted with: no command sets it. *)
+Theorem C20_transport_fixed_at_accept : forall cfg verify w i e w' o cl j c c', Inv w -> step cfg verify w i e = Ok (w', o, cl) ->
+  conns w !! j = Some c -> conns w' !! j = Some c' -> (c_host c', c_secure c') = (c_host c, c_secure c).
+Proof. exact transport_fixed_at_accept. Qed.
+
+(* (2) A command of a registered connection changes nothing of its own connection record but the negotiation flags
+   (CAP) and nick + source (NICK): host, names, password, registration marks and transport flag stay. *)
+Theorem C20_commands_keep_connection_identity : forall cfg verify i s c cmd msg r,
+  InvS s -> conn_ok i s c -> c_auth c = true -> dispatch cfg verify i s c cmd msg = Ok r ->
+  (c_host (h_conn r), c_name (h_conn r), c_real (h_conn r), c_pass (h_conn r), c_auth (h_conn r), c_registered (h_conn r),
+   c_secure (h_conn r), c_sender_taken (h_conn r)) =
+  (c_host c, c_name c, c_real c, c_pass c, c_auth c, c_registered c, c_secure c, c_sender_taken c).
+Proof. exact dispatch_conn_fixed. Qed.
+
+(* (3) The one place the flag is read (the check counts the readers in the model text and in the source on every run):
+   WHOIS answers for a user over a secure connection with the same lines plus the 671 line at the end. *)
+Theorem C20_whois_secure_adds_only_671 : forall cfg s c client viewer n,
+  whois_one cfg s (c_with_secure true c) client viewer n =
+  match whois_one cfg s (c_with_secure false c) client viewer n with
+  | Ok [] => Ok []
+  | Ok ls => Ok (ls ++ [rpl_whoissecure client n])
+  | Panic p => Panic p
+  end.
+Proof. exact whois_secure_adds_671. Qed.
+
 Print Assumptions C20_accept_iff.
 Print Assumptions C20_welcome_burst.
 Print Assumptions C20_hash_shape.
 Print Assumptions C20_cli_overrides_file.
 Print Assumptions C20_channels_from_config.
 Print Assumptions C20_default_user_modes.
+Print Assumptions C20_transport_fixed_at_accept.
+Print Assumptions C20_commands_keep_connection_identity.
+Print Assumptions C20_whois_secure_adds_only_671.
